@@ -55,8 +55,11 @@ def _evict(keep):
     ents = [os.path.join(CACHE, d) for d in os.listdir(CACHE)]
     ents = [e for e in ents if os.path.isdir(e) and os.path.basename(e) != keep]
     ents.sort(key=lambda p: os.path.getmtime(p), reverse=True)
-    for e in ents[2:]:
-        shutil.rmtree(e, ignore_errors=True)
+    now = time.time()
+    for e in ents[4:]:
+        # never evict a directory that may be in use by a concurrent check (younger than 20 min)
+        if now - os.path.getmtime(e) > 1200:
+            shutil.rmtree(e, ignore_errors=True)
 
 def extract(config="default", repo=None, keep_target=False, log=None):
     """returns dict(dir=<facts dir>, files=[...], target=<target dir or None>, cached=bool, wall_s=..)"""
